@@ -160,8 +160,8 @@ def histories(draw, sched):
 
 
 def parts(tier):
-    return [Part('round_robin', histories('round_robin'), quick=500, thorough=4000),
-            Part('backfilling', histories('backfilling'), quick=500, thorough=4000)]
+    return [Part('round_robin', histories('round_robin'), quick=500, thorough=3000),
+            Part('backfilling', histories('backfilling'), quick=500, thorough=3000)]
 
 
 # ------------------------------------------------------------------------------
